@@ -19,14 +19,43 @@ def select(tier, seed, names):
     return names
 
 
+# Value obligations that no back end decides with the unbounded loop contract (probed: MiniSat, kissat, CaDiCaL, z3,
+# cvc5; DESIGN.md section 1 fact 9): bounded stand-in = n <= NB per call, loop unwound, explicit per-element
+# postcondition.  Labelled bounded in evidence, never counted as proved.
+HARD_BOUNDED = {'mululq': (2, 'kissat'), 'mulll': (2, 'cvc5'), 'mullw': (2, 'z3'),
+                'ldresnearb': (4, 'kissat'), 'ldresnearl': (4, 'kissat'), 'ldreslinb': (4, 'kissat')}
+# not decided within the quick budget even bounded: attempted in the thorough tier only; otherwise reported as not covered
+THOROUGH_ONLY = {'mulslq': (1, 'kissat'), 'ldreslinl': (4, 'kissat')}
+SLOW_KISSAT = {'mulhsb', 'mulhub', 'mulhsw', 'mulhuw', 'mulhsl', 'mulhul', 'mulsbw', 'mulubw', 'mulswl', 'muluwl', 'mullb',
+               'storeb', 'storew', 'storel', 'storeq', 'loadoffb', 'loadoffw', 'loadoffl', 'divluw', 'div255w'}
+
+
 def units(tier, seed, only=None):
     us = []
+    skipped = []
     for name in INT_OPS:
-        us.append(emu.gen_unit(name, 'spec', tier))
+        if name in HARD_BOUNDED or (name in THOROUGH_ONLY and tier == 'thorough'):
+            nb, be = (HARD_BOUNDED.get(name) or THOROUGH_ONLY[name])
+            u = emu.gen_unit(name, 'spec', tier, bounded_n=nb)
+            u.backends = [be] + [b for b in ('kissat', 'z3', 'cvc5') if b != be]
+            u.timeout = 600
+            us.append(u)
+            continue
+        if name in THOROUGH_ONLY:
+            skipped.append(name)
+            continue
+        u = emu.gen_unit(name, 'spec', tier)
+        if name in SLOW_KISSAT:
+            u.backends = ['kissat', 'minisat']
+            u.timeout = 400
+        else:
+            u.timeout = 240
+        us.append(u)
     from . import c02_driver
     us += c02_driver.units(tier, seed)
     if only:
         us = [u for u in us if re.search(only, u.name)]
+    units.skipped = skipped
     return us
 
 
@@ -34,7 +63,8 @@ def run(tier, seed, only=None):
     us = units(tier, seed, only)
     from . import emu_replay
     return runner.run_property(PROP, us, tier, seed, replay_fn=emu_replay.replay_unit, assumptions=ASSUME,
-                               extra_cov={'reference_errata': ERRATA})
+                               extra_cov={'reference_errata': ERRATA,
+                                          'value_obligation_not_covered_in_this_tier': ['emulate_' + n for n in getattr(units, 'skipped', [])]})
 
 
 def replay(path):
